@@ -219,6 +219,31 @@ fn run_sequence(g: &mut Gen, rng: &mut Rng, n_ops: usize) {
                 g.push(format!("opassign-{}({})", f, kc), &format!("try {} catch _ -> null; {}", stmt, var), format!("opa {} {} {} {}", st, k.canon, f, v.canon), rust);
                 g.script.push(format!("try {} catch _ -> null", stmt));
             }
+            19 => {
+                // op-assign whose RIGHT-HAND SIDE reads the dictionary being updated: the same entry through
+                // an equal key of another spelling, another entry, membership, the size, the dict itself
+                let (fname, f) = *rng.pick(&[("pr", "pair"), ("pr", "pair"), ("rt", "right"), ("lf", "left")]);
+                // prefer a key that is present, so that the statement really updates
+                let present: Vec<&Elem> = g.keys.iter().filter(|e| matches!(g.interp.eval(&format!("{} in {}", e.src, var)), Outcome::Ok(ref s) if s == "1")).collect();
+                let k = if !present.is_empty() && rng.chance(4, 5) { *rng.pick(&present) } else { k };
+                let kc = k.class.clone();
+                let k2: &Elem = match g.keys.iter().position(|e| std::ptr::eq(e, k)) {
+                    Some(ki) if !g.twins[ki].is_empty() && rng.chance(3, 4) => &g.keys[*rng.pick(&g.twins[ki])],
+                    _ => if rng.chance(1, 2) { k } else { pick_key(rng, g.keys, g.bad) },
+                };
+                let (form, rhs) = match rng.below(6) {
+                    0 | 1 | 2 => ("get", format!("{}[{}]", var, k2.src)),
+                    3 => ("sget", format!("({} !? {})", var, k2.src)),
+                    4 => ("len", format!("len({})", var)),
+                    _ => if rng.chance(1, 2) { ("self", var.clone()) } else { ("in", format!("({} in {})", k2.src, var)) },
+                };
+                let stmt = format!("{}[{}] {}= {}", var, k.src, fname, rhs);
+                let r = g.interp.eval(&stmt);
+                let flag = matches!(r, Outcome::Ok(_));
+                let rust = if let Outcome::Panic(_) = r { "panic".to_string() } else { format!("ok [{},{}]", g.state(&var), if flag { 1 } else { 0 }) };
+                g.push(format!("opassign-rhs-{}-{}({})", form, f, kc), &format!("try {} catch _ -> null; {}", stmt, var), format!("opar {} {} {} {} {}", st, k.canon, f, form, k2.canon), rust);
+                g.script.push(format!("try {} catch _ -> null", stmt));
+            }
             5 => {
                 let stmt = format!("rm = try remove {}[{}] catch _ -> \"absent\"", var, k.src);
                 let r = g.interp.eval(&stmt);
@@ -487,6 +512,34 @@ fn main() {
                     Err(_) => "throw".into(),
                 };
                 g.cases.push(Case { key: format!("identity-{}(d{})", name, di), input: format!("{}; {}", setup, expr), request: req.clone(), rust });
+            }
+        }
+    }
+    // ---- op-assign sweep: `d[k] f= d[k']` for every pair of equal spellings (k, k') of a sample of keys
+    {
+        for (ki, k) in keys.iter().enumerate() {
+            if g.twins[ki].is_empty() || !rng.chance(1, 2) {
+                continue;
+            }
+            let k2 = &keys[*rng.pick(&g.twins[ki])];
+            for dflt in ["", ":0, "] {
+                let it = Interp::new();
+                let setup = format!("{}; d0 = {{{}{}: 5, \"other\": 7}}", PR, dflt, k.src);
+                if !matches!(it.eval(&setup), Outcome::Ok(_)) {
+                    continue;
+                }
+                let st = match it.eval_obj("d0") { Ok(o) => canon(&o), Err(_) => continue };
+                let stmt = format!("d0[{}] pr= d0[{}]", k.src, k2.src);
+                let r = it.eval(&stmt);
+                let flag = matches!(r, Outcome::Ok(_));
+                let after = match it.eval_obj("d0") { Ok(o) => canon(&o), Err(_) => "?".into() };
+                let rust = if let Outcome::Panic(_) = r { "panic".to_string() } else { format!("ok [{},{}]", after, if flag { 1 } else { 0 }) };
+                g.cases.push(Case {
+                    key: format!("opassign-rhs-sweep({},{})", k.class, k2.class),
+                    input: format!("{}; try {} catch _ -> null; d0", setup, stmt),
+                    request: format!("opar {} {} pair get {}", st, k.canon, k2.canon),
+                    rust,
+                });
             }
         }
     }
